@@ -748,6 +748,7 @@ func (x *Exec) callCommon(st *State, c *ssa.CallCommon, i ssa.Value, pos token.P
 		return true
 	}
 	if x.inlinable(callee) && len(st.stack) < 8 {
+		st.callArgs[key] = append(st.callArgs[key], args) // arguments of inlined calls are part of the call log too
 		x.pushFrame(st, callee, args, clo, i)
 		return true
 	}
